@@ -253,6 +253,53 @@ func (c *Ctx) redisKeysMapped(r *redisRoles, rule string) {
 		if depth > 6 || v == nil {
 			return false
 		}
+		// a list assembled in place: an empty make, extended only by appends of mapped keys
+		if _, isSlice := v.Type().Underlying().(*types.Slice); isSlice {
+			if os := ir.Origins(v); len(os) > 0 {
+				all, appended := true, false
+				for _, o := range os {
+					switch x := o.(type) {
+					case *ssa.MakeSlice:
+						if k, isC := ir.ConstInt(x.Len); !isC || k != 0 {
+							all = false
+						}
+					case *ssa.Call:
+						cc := builtinCall(x, "append")
+						if cc == nil || len(cc.Args) != 2 {
+							all = false
+							break
+						}
+						// the base is one of the same origins (the loop variable) - only the elements matter
+						for _, bo := range ir.Origins(cc.Args[0]) {
+							found := false
+							for _, o2 := range os {
+								if bo == o2 {
+									found = true
+								}
+							}
+							if !found {
+								all = false
+							}
+						}
+						els := variadicArgs(cc.Args[1])
+						if len(els) == 0 {
+							all = false
+						}
+						for _, el := range els {
+							if el == nil || !mapped(el, depth+1) {
+								all = false
+							}
+						}
+						appended = true
+					default:
+						all = false
+					}
+				}
+				if all && appended {
+					return true
+				}
+			}
+		}
 		for _, o := range ir.Origins(v) {
 			switch x := o.(type) {
 			case *ssa.Call:
